@@ -84,7 +84,8 @@ def hosvd(  # noqa: PLR0912,PLR0913,PLR0915
     if verbosity > 0:
         print("Computing HOSVD...\n")
 
-    normxsqr = (input_tensor**2).collapse()
+    # Squares and their sum in double precision: in the data's own (integer) dtype they wrap around
+    normxsqr = float(np.sum(input_tensor.double().flatten(input_tensor.order) ** 2))
     eigsumthresh = ((tol**2) * normxsqr) / d
 
     if verbosity > 2:
